@@ -152,9 +152,67 @@ func suiteV12(c *vctx) {
 			}
 		}
 		cfgTok := fmt.Sprintf("%d;1:%s,2:%s", dflt, vxs("hmac_sha256_scrypt"), vxs("argon2id"))
+		// saturation prelude (local mode): logins with upgradeable hashes are served while the update
+		// queue is full, so that their upgrade requests are dropped. Nothing may remember that: on
+		// the idle agent afterwards the next login must upgrade (checked by the loop below, which
+		// then starts with one right-password login per user).
+		saturated := mode == "local" && r.Bool()
+		if saturated {
+			a.ref.AddUser("filler", "Filler-Passw0rd-9x!", false)
+			g := a.installGate()
+			var reqs []*creq
+			hold := &creq{kind: "auth", user: "filler", pw: "Filler-Passw0rd-9x!"}
+			a.launch(hold)
+			held := false
+			select {
+			case <-g.ev:
+				held = true
+			case <-time.After(3 * time.Second):
+			}
+			for k := 0; k < 24; k++ {
+				q := &creq{kind: "update", user: "filler", pw: "Filler-Passw0rd-9x!"}
+				reqs = append(reqs, q)
+				a.launch(q)
+			}
+			time.Sleep(5 * time.Millisecond)
+			for _, u := range []string{"alice", "carol", "root", "bob"} {
+				q := &creq{kind: "auth", user: u, pw: pw[u]}
+				reqs = append(reqs, q)
+				a.launch(q)
+			}
+			time.Sleep(5 * time.Millisecond)
+			g.mu.Lock()
+			g.free = true
+			g.mu.Unlock()
+			if held {
+				g.release <- true
+			}
+			answered := true
+			for _, q := range append(reqs, hold) {
+				select {
+				case <-q.done:
+				case <-time.After(5 * time.Second):
+					answered = false
+				}
+			}
+			c.emit("law.C10.every_request_is_answered saturation-prelude-c12", vtf(answered))
+			last := dirDigest(a.dirPath)
+			for k := 0; k < 60; k++ {
+				time.Sleep(5 * time.Millisecond)
+				a.iface.Check()
+				d := dirDigest(a.dirPath)
+				if d == last && k > 6 {
+					break
+				}
+				last = d
+			}
+		}
 		for k := 0; k < 8; k++ {
 			u := []string{"root", "alice", "bob", "carol"}[r.Intn(4)]
 			right := r.Intn(3) != 0
+			if saturated && k < 4 {
+				u, right = []string{"alice", "carol", "root", "bob"}[k], true
+			}
 			p := pw[u]
 			if !right {
 				p = "Wrong-Passw0rd-xyz"
@@ -193,7 +251,7 @@ func suiteV12(c *vctx) {
 			time.Sleep(5 * time.Millisecond)
 			_, after, pid2, salt2, ts2 := recFields(a.dirPath, u)
 			changed := dirDigest(a.dirPath) != preDigest
-			desc := fmt.Sprintf("mode=%s user=%s right=%s pid=%d default=%d weakpolicy=%s", mode, u, vtf(right), pid, dflt, vtf(weakPolicy))
+			desc := fmt.Sprintf("mode=%s user=%s right=%s pid=%d default=%d weakpolicy=%s after-saturation=%s", mode, u, vtf(right), pid, dflt, vtf(weakPolicy), vtf(saturated))
 			switch {
 			case !ok:
 				c.emit("law.C12.failed_login_never_rewrites "+desc, vtf(!changed))
